@@ -281,3 +281,39 @@ func C19EpochText() {
 		zz.Assert(perr == nil && t.Unix() == c.sec, "and read in base 10")
 	}
 }
+
+// C15MergeFresh: assembling an extension's custom functions (Merge) never changes the maps it
+// is given — the process-wide registries (CommonCustomFuncs) other schemas resolve against —
+// and yields their union with later maps overriding earlier ones.
+func C15MergeFresh() {
+	f1 := func() (string, error) { return "1", nil }
+	f2 := func() (string, error) { return "2", nil }
+	names := []string{"upper", "tag", "lower"}
+	a, b := CustomFuncs{}, CustomFuncs{}
+	inA, inB := make([]bool, len(names)), make([]bool, len(names))
+	for i, n := range names {
+		if zz.NondetBool("a." + n) {
+			a[n], inA[i] = f1, true
+		}
+		if zz.NondetBool("b." + n) {
+			b[n], inB[i] = f2, true
+		}
+	}
+	var first CustomFuncs = a
+	if zz.NondetBool("nilFirst") {
+		first = nil
+	}
+	m := Merge(first, b)
+	for i, n := range names {
+		_, hasA := a[n]
+		_, hasB := b[n]
+		zz.Assert(hasA == inA[i] && hasB == inB[i], "the maps handed to Merge are not changed")
+		_, hasM := m[n]
+		zz.Assert(hasM == ((first != nil && inA[i]) || inB[i]), "the result is the union")
+	}
+	m["extra"] = f1
+	_, leaked := a["extra"]
+	_, leaked2 := b["extra"]
+	zz.Assert(!leaked && !leaked2, "the result is a fresh map: writing to it does not reach the inputs")
+	zz.Cover("merged")
+}
